@@ -617,8 +617,7 @@ func runHistory(ops []histOp, pool string) (sym, det string, evals int64) {
 			evals++
 			got, exp := core.Canon(res), core.Canon(want)
 			wq.Close()
-			exact := op.Kind == "fallback"
-			if s, d := core.Diff(exp, got, exact); s != "" {
+			if s, d := core.Diff(exp, got, false); s != "" {
 				if !(hasK(op.Q) && tieEqual(exp, got)) {
 					return "history:" + s, fmt.Sprintf("op %d %v on the long-lived engine differs from a fresh engine on the current data: %s", i, op, d), evals
 				}
